@@ -21,7 +21,7 @@ RULE = ("Hypothesis draws bases of 1-3 generalized shells (l 0..3 quick / 0..4 t
         "pair exponent (h <= pi/sqrt(40 p_max), L >= 1 + sqrt(40/p_min) + margin) so that truncation and aliasing are below "
         "1e-13: sum phi_a phi_b h^3 vs overlap_integral; sum phi_a m phi_b h^3 vs moment_integral; 1/2 sum grad phi_a . grad "
         "phi_b h^3 vs kinetic_energy_integral; sum rho h^3 vs tr(gamma S); sum t+ h^3 vs tr(gamma T); tolerance 1e-9*max(1, "
-        "scale).  Non-trivial: a spherical shell with l >= 2, or M >= 2.")
+        "scale).  Gradients and t+ come from deriv_type='direct' in every other case (grid planes through centre coordinates occur: a third of the centre coordinates are exactly 0).  Non-trivial: a spherical shell with l >= 2, or M >= 2.")
 ASSUMPTIONS = ["trapezoid rule on a uniform grid converges geometrically for polynomial x Gaussian integrands; window 0.3-3 only"]
 TOL = 1e-9
 
@@ -60,6 +60,12 @@ def judge(case):
     if f32:
         h = 2.0 ** math.floor(math.log2(h))
         v.classes.append("grid-float32")
+    # every other case takes the gradients and t+ from the 'direct' back-end (first orders only, which it accepts); the grid
+    # contains the planes x, y, z = 0, on which every centre with a zero coordinate lies
+    dtype_ = "direct" if (int(case_hash(case), 16) // 4) % 2 == 0 else "general"
+    v.classes.append("deriv-" + dtype_)
+    if dtype_ == "direct" and any(s["l"] >= 1 and any(c == 0 for c in s["coord"]) for s in shells):
+        v.classes.append("direct-centre-on-grid-plane")
     npts = int(math.ceil(L / h))
     ax = np.arange(-npts, npts + 1) * h
     w = h ** 3
@@ -83,10 +89,10 @@ def judge(case):
             m = np.prod((pts - origin[None, :]) ** o[None, :], axis=1)
             M[:, :, k] += (phi * m[None, :]) @ phi.T * w
         for e in np.eye(3, dtype=int):
-            d = lib(evaluate_deriv_basis, bas, pts, e)
+            d = lib(evaluate_deriv_basis, bas, pts, e, deriv_type=dtype_)
             T += 0.5 * d @ d.T * w
         rho += lib(evaluate_density, G, bas, pts).sum() * w
-        ked += lib(evaluate_posdef_kinetic_energy_density, G, bas, pts).sum() * w
+        ked += lib(evaluate_posdef_kinetic_energy_density, G, bas, pts, deriv_type=dtype_).sum() * w
     v.info["grid_points"] = float(len(ax) ** 3)
     Sa = lib(overlap_integral, bas)
     Ta = lib(kinetic_energy_integral, bas)
